@@ -13,6 +13,10 @@ EXTRA.update({'C01_13': ['C05', 'C13'], 'C01_14': ['C08'], 'C05_13': ['C11'], 'C
               'C13_14': ['C05'], 'C14_13': ['C12', 'C13'], 'C15_14': ['C04'], 'C16_13': ['C07', 'C17'], 'C18_14': ['C16'], 'C19_13': ['C12'],
               'C20_13': ['C17'], 'C20_14': ['C06'], 'C11_13': ['C05'], 'C09_13': ['C10'], 'C07_13': ['C10'], 'C02_14': ['C03'],
               'C03_13': ['C02'], 'C03_14': ['C17'], 'C17_13': ['C20']})
+EXTRA.update({'C01_15': ['C07'], 'C01_16': ['C05'], 'C02_15': ['C10'], 'C02_16': ['C03', 'C06'], 'C03_15': ['C18'], 'C03_16': ['C09'], 'C04_16': ['C01'],
+              'C05_15': ['C04'], 'C05_16': ['C13'], 'C06_15': ['C10'], 'C06_16': ['C04'], 'C09_15': ['C03'], 'C10_15': ['C09'], 'C11_15': ['C19'],
+              'C11_16': ['C04'], 'C13_16': ['C14'], 'C14_15': ['C10'], 'C14_16': ['C04'], 'C15_15': ['C14'], 'C16_15': ['C14'], 'C17_15': ['C03'],
+              'C19_15': ['C11'], 'C20_15': ['C06'], 'C20_16': ['C06'], 'C12_15': ['C01'], 'C12_16': ['C09']})
 only = sys.argv[1:]
 for patch in sorted(glob.glob('/tmp/mut/C??_*.patch.diff')):
     mid = os.path.basename(patch)[:-len('.patch.diff')]
